@@ -559,11 +559,43 @@ class SymReal:
         raise ProxyLeak('index() on a symbolic real')
 
     def __round__(self, n=None):
-        raise ProxyLeak('round() on a symbolic real')
+        if n:
+            raise ProxyLeak('round(x, n) on a symbolic real')
+        return _round_half_even(self)
+
+    def __floor__(self):
+        return SymReal(z3.ToReal(z3.ToInt(self.t)))
+
+    def __ceil__(self):
+        fl = z3.ToInt(self.t)
+        return SymReal(z3.ToReal(z3.If(z3.ToReal(fl) == self.t, fl, fl + 1)))
+
+    def rint(self):
+        return _round_half_even(self)
+
+    # numpy's object-dtype loops call these methods element-wise
+    def sin(self): return SymReal(uf('sin', self.t))
+    def cos(self): return SymReal(uf('cos', self.t))
+    def tan(self): return SymReal(uf('tan', self.t))
+    def arcsin(self): return SymReal(uf('arcsin', self.t))
+    def arccos(self): return SymReal(uf('arccos', self.t))
+    def arctan(self): return SymReal(uf('arctan', self.t))
+    def log(self): return SymReal(uf('log', self.t))
+    def log10(self): return SymReal(uf('log10', self.t))
+    def exp(self): return SymReal(uf('exp', self.t))
+    def sqrt(self): return SymReal(uf('pow', self.t, z3.RealVal('1/2')))
+    def cbrt(self): return SymReal(uf('pow', self.t, z3.RealVal('1/3')))
+    def conjugate(self): return self
 
 
 class SymDec(SymReal):
     """a symbolic real that the library must treat as decimal.Decimal (see stubs.DecimalStub)"""
+
+
+def _round_half_even(x):
+    h = x.t + z3.RealVal('1/2')
+    fl = z3.ToInt(h)
+    return SymReal(z3.ToReal(z3.If(z3.And(z3.ToReal(fl) == h, fl % 2 == 1), fl - 1, fl)))
 
 
 def _nonzero(d):
@@ -781,7 +813,7 @@ def _array_ufunc(ufunc, method, inputs, kw):
             return SymReal(z3.ToReal(z3.If(z3.ToReal(fl) == xt, fl, fl + 1)))
         if n == 'trunc':
             return SymReal(z3.ToReal(z3.If(xt >= 0, fl, z3.If(z3.ToReal(fl) == xt, fl, fl + 1))))
-        raise ProxyLeak('np.rint on symbolic value not modelled')
+        return _round_half_even(x)
     raise ProxyLeak(f'numpy ufunc {n} on a symbolic value is not modelled')
 
 
@@ -813,10 +845,20 @@ def _array_function(func, args, kwargs):
         return x if isinstance(x, SymBool) else SymBool(_truth(x))
     if n in ('sum', 'max', 'min', 'amax', 'amin', 'mean', 'average', 'prod', 'round', 'around', 'real', 'squeeze', 'copy'):
         if n in ('round', 'around'):
-            raise ProxyLeak('np.round on a symbolic value')
+            if (len(args) > 1 and args[1]) or kwargs.get('decimals'):
+                raise ProxyLeak('np.round(x, decimals) on a symbolic value')
+            return _round_half_even(args[0]) if isinstance(args[0], SymReal) else args[0]
         return args[0]
     if n == 'abs' or n == 'absolute':
         return abs(args[0])
+    if n == 'linspace' or n == 'logspace':
+        a, b, num = args[0], args[1], args[2] if len(args) > 2 else kwargs.get('num', 50)
+        if kwargs.get('endpoint', True) is not True or not isinstance(num, _int):
+            raise ProxyLeak('np.linspace variant not modelled')
+        pts = [a + (b - a) * fractions.Fraction(i, num - 1) for i in range(num)] if num > 1 else [a]
+        if n == 'logspace':
+            pts = [SymReal(real_pow(z3.RealVal(10), lift(p))) for p in pts]
+        return symarr(pts)
     if n == 'copyto':
         dst, src = args[0], args[1]
         for idx in np.ndindex(dst.shape):
@@ -840,6 +882,32 @@ class SymArr(np.ndarray):
         if dtype in (float, _float, np.float64):
             return self
         return np.ndarray.astype(self, dtype, *a, **kw)
+
+    def __array_function__(self, func, types, args, kwargs):
+        n = func.__name__
+        if n in ('allclose', 'isclose'):
+            a, b = np.broadcast_arrays(np.asarray(args[0], dtype=object), np.asarray(args[1], dtype=object))
+            kw = {k: v for k, v in kwargs.items() if k in ('rtol', 'atol')}
+            if len(args) > 2:
+                kw['rtol'] = args[2]
+            if len(args) > 3:
+                kw['atol'] = args[3]
+            cl = [sym_isclose(_pyify(x), _pyify(y), **kw) for x, y in zip(a.ravel(), b.ravel())]
+            if n == 'allclose':
+                return SymBool(z3.And(*[c.t for c in cl])) if cl else True
+            out = np.empty(a.shape, dtype=object)
+            for i, c in enumerate(cl):
+                out.ravel()[i] = c
+            return out.view(SymArr)
+        r = super().__array_function__(func, types, args, kwargs)
+        if isinstance(r, np.ndarray) and r.shape == () and r.dtype == object:
+            return r.item()
+        return r
+
+    def __array_wrap__(self, out, context=None, return_scalar=False):
+        if isinstance(out, np.ndarray) and out.shape == () and out.dtype == object:
+            return out.item()
+        return np.ndarray.__array_wrap__(self, out, context)
 
 
 def symarr(items):
